@@ -340,7 +340,9 @@ class SimpleTypeChecker(walkers.DagWalker):
         return ArrayType(idx_type, default_type)
 
     def walk_pow(self, formula: FNode, args: List[PySMTType], **kwargs) -> Optional[PySMTType]:
-        if args[0] != args[1]:
+        if args[0] is None or args[0] != args[1]:
+            return None
+        if not (args[0].is_int_type() or args[0].is_real_type()):
             return None
         return REAL
 
